@@ -3,6 +3,7 @@ import Relic.Model.Merkle
 import Relic.Model.PEChecksum
 import Relic.Spec.PEChecksum
 import Relic.Model.Transport
+import Relic.Model.PgpDetached
 namespace Relic.Driver.C09
 open Relic
 
@@ -132,6 +133,10 @@ def handle : List String → String
   -- implementation-level oracles: no model, the expected line is the property itself
   | "frag" :: _ => "ok same #oracle"
   | "transform" :: _ => "ok same #oracle"
+  | ["pipe", "pgp", size, _flags] =>
+    match size.toNat? with
+    | some n => (match Relic.PgpDetached.pipeTransformLen n with | some _ => "ok same" | none => "ok refused")
+    | none => "bad-op"
   | "xlinger" :: _ => "ok same #oracle"
   | "xresp" :: _ => "ok error #oracle"
   | "xraw" :: _ => "ok refused #oracle"
